@@ -1,4 +1,3 @@
-use futures::{FutureExt, future::BoxFuture};
 use std::{
     mem,
     sync::{Arc, Mutex, Weak},
@@ -230,7 +229,9 @@ impl ChannelCreditMonitor {
 pub(crate) struct ChannelCreditReturner {
     monitor: Weak<Mutex<ChannelCreditMonitorInner>>,
     to_return: u32,
-    return_fut: Option<BoxFuture<'static, ()>>,
+    /// Message returning credits for which no space was available in the queue,
+    /// together with the queue.
+    return_msg: Option<(PortEvt, mpsc::Sender<PortEvt>)>,
 }
 
 impl ChannelCreditReturner {
@@ -238,7 +239,7 @@ impl ChannelCreditReturner {
     ///
     /// return_flush must have been called before this function is called.
     pub fn start_return(&mut self, credit: UsedCredit, remote_port: u32, tx: &mpsc::Sender<PortEvt>) {
-        assert!(self.return_fut.is_none(), "start_return called without return_flush");
+        assert!(self.return_msg.is_none(), "start_return called without return_flush");
 
         if let Some(monitor) = self.monitor.upgrade() {
             let mut monitor = monitor.lock().unwrap();
@@ -255,23 +256,26 @@ impl ChannelCreditReturner {
                 self.to_return = 0;
 
                 if let Err(TrySendError::Full(msg)) = tx.try_send(msg) {
-                    let tx = tx.clone();
-                    self.return_fut = Some(
-                        async move {
-                            let _ = tx.send(msg).await;
-                        }
-                        .boxed(),
-                    );
+                    self.return_msg = Some((msg, tx.clone()));
                 }
             }
         }
     }
 
     /// Completes returning of credits.
+    ///
+    /// # Cancel safety
+    /// If this function is cancelled, the credits stay queued for return and no
+    /// place in the queue of the event channel is kept.
     pub async fn return_flush(&mut self) {
-        if let Some(return_fut) = &mut self.return_fut {
-            return_fut.await;
-            self.return_fut = None;
+        if let Some((_, tx)) = &self.return_msg {
+            // Waiting for queue space must not be done by a future that outlives this call:
+            // it would keep its place in the queue while nobody polls it, once the receive
+            // operation it belongs to has been cancelled, and block all senders behind it.
+            let permit = tx.clone().reserve_owned().await;
+            if let (Ok(permit), Some((msg, _))) = (permit, self.return_msg.take()) {
+                permit.send(msg);
+            }
         }
     }
 }
@@ -279,7 +283,7 @@ impl ChannelCreditReturner {
 /// A pair of ChannelCreditMonitor and ChannelCreditReturner.
 pub(crate) fn credit_monitor_pair(limit: u32) -> (ChannelCreditMonitor, ChannelCreditReturner) {
     let monitor = ChannelCreditMonitor(Arc::new(Mutex::new(ChannelCreditMonitorInner { used: 0, limit })));
-    let returner = ChannelCreditReturner { monitor: Arc::downgrade(&monitor.0), to_return: 0, return_fut: None };
+    let returner = ChannelCreditReturner { monitor: Arc::downgrade(&monitor.0), to_return: 0, return_msg: None };
     (monitor, returner)
 }
 
